@@ -737,6 +737,10 @@ def run_shard(ctx):
                    "loss_name": type(loss).__name__}
             st["runs"].append(rec)
             names = ["truth", "projected-linear", "random-physical", "reference-solver", "feasible-direction"]
+            if det is not None and det[i] is not None:
+                # wiring: the estimate handed back is the algorithm's result
+                ctx.truth("estimator:returns-algorithm-value", np.array_equal(v_hat, np.asarray(det[i].value, dtype=np.float64)),
+                          key="LossMinimizationEstimator:estimated-var-is-not-the-algorithm-result", info=info)
             if det is None or det[i] is None or det[i].error_values is None:
                 for n in names:
                     ctx.skip(f"pgdb:optimal:{n}")
@@ -749,7 +753,7 @@ def run_shard(ctx):
                 # cut off by the iteration limit: nothing is promised about optimality (grey), the trace was still checked
                 for n in names:
                     ctx.skip(f"pgdb:optimal:{n}")
-                ctx.count("limit-hit-estimates")
+                ctx.count("estimates-not-stopped-by-criterion")
                 continue
             L_start = ds.L_v(fam_, np.asarray(det[i].x[0], dtype=np.float64))
             tp, tf, cap = pgdb_tol(fam_, mode, el, ds.regime, L_start)
@@ -811,7 +815,8 @@ def run_shard(ctx):
             st["rng"] = rng
             st["runs"], st["cvx"], st["trace"] = [], [], {}
             qt, c_sys, B, d, t, m = build_problem(tomo, shape, flag, rng)
-            kind = str(rng.choice(["interior", "boundary", "pure"]))
+            # few shots + boundary truths make the positivity constraints active (that is where constraint bugs show)
+            kind = str(rng.choice(["interior", "boundary", "pure"], p=[0.2, 0.3, 0.5] if grp == "few" else [0.34, 0.33, 0.33]))
             ops = draw_true_ops(t, d, m, rng, kind)
             truth_s = refopt.stack_from_ops(t, B, d, m, ops if t != "Gate" else [ref.choi_of_map(ref.kraus_map(ops), d)])
             md = model_of_qt(qt, st["models"])
